@@ -6,7 +6,7 @@
    ATry) interpreted by `run_script`, structurally recursive, so every theorem quantified over `s : script` holds for every
    depth and length. fee_p/fee_f/fee_b st z = floor(share * z / 10^18) at the fee shares of st. loan_free s = no loan inside s. *)
 From WW Require Import Prim Vault.
-From WW.Proofs Require Import ArithLemmas VaultLedger VaultProofs.
+From WW.Proofs Require Import ArithLemmas VaultLedger VaultProofs VaultFunds.
 
 (* a rejected operation (a loan that reverts for whatever reason) changes nothing. In the model this is how `apply` is
    defined (platform atomicity); on the implementation it is OBSERVED on every rejected call by the full dump comparison. *)
@@ -83,6 +83,14 @@ Proof. exact router_pays_quote. Qed.
 
 (* callbacks are not callable from outside. True by construction of the model (`step` returns the error for these operations);
    what ties it to the code is the correspondence stream, which sends these messages to the real vault and router. *)
+(* coins attached to the router's FlashLoan message change nothing: the vault still gains exactly what an un-funded loan
+   pays, and the router ends with nothing (the initiator gets the attached coins back with the remaining proceeds) *)
+Theorem C06_router_loan_with_attached_funds : forall u z pre s f st st', Inv st -> loan_free s = true -> u <> ROUTER -> u <> VAULT ->
+  router_loan_f u z pre s f st = Ok st' ->
+  bal st + fee_p st z + fee_f st z <= bal st' /\ burned st' = burned st + fee_b st z /\ allf st' = allf st + fee_p st z /\
+  pend st' <= pend st + fee_p st z /\ counter st' = counter st /\ supply st' <= supply st /\ get (ab st') ROUTER = 0.
+Proof. exact router_loan_f_settles. Qed.
+
 Theorem C06_callbacks_rejected : forall st u old z,
   step st (OCallbackExt u old z) = Err E_OTHER /\ step st (ONextLoanExt u) = Err E_UNAUTH /\ step st (OCompleteLoanExt u) = Err E_UNAUTH.
 Proof. intros. repeat split; reflexivity. Qed.
@@ -132,6 +140,7 @@ Print Assumptions C06_quoted_suffices.
 Print Assumptions C06_one_less_fails.
 Print Assumptions C06_router_keeps_nothing.
 Print Assumptions C06_router_pays_quote.
+Print Assumptions C06_router_loan_with_attached_funds.
 Print Assumptions C06_callbacks_rejected.
 Print Assumptions C06_step_single_loan.
 Print Assumptions C06_step_router_loan.
